@@ -25,6 +25,13 @@ Ops (one text name each):
                  vs  TypeName.session (description as a function of the schema as it is at the read; the read mode is
                      extracted: Gen.TypeName.descRead)
 
+  routes       the same declaration {'name': 'c', 'type': <name>, **keys} through EVERY declaration route: FlatColumn(**d),
+                 FlatColumn.from_dict, RelationSchema.from_dict, FlatColumn.from_json, ConstantColumn / FunctionColumn /
+                 DictionaryColumn / SparseColumn / RLEColumn (and ConstantColumn.from_dict); keys = none, or length /
+                 precision / scale / element_type given as null or as a value
+                 vs  TypeName.declare (when no key carries a value); from_dict's own statements are extracted
+                     (Gen.TypeNameDict.fromDictRewrites, theorem from_dict_declaration_keeps_name)
+
 Oracle (evaluated on the implementation's own outputs, never on the model's):
   total     any text: a well-formed 5-tuple comes back, or ValueError - nothing else;
   exact     a name the generator built as a well-formed type name (label `expect`, re-validated from
@@ -47,6 +54,12 @@ Oracle (evaluated on the implementation's own outputs, never on the model's):
   frame     in a schema of several columns - whatever their names and aliases, collisions included - the
             description has one entry per column, entry i bears column i's name, and `typed` holds for
             entry i against column i; two calls give the same description.
+
+  routes    on every route: any exception is ValueError (`total`); when the implementation's own from_name resolves the
+            name to a type, the column carries that type and exactly the length / precision / scale / element type
+            from_name gives (a key given a value is judged like `explicit`; `length` is not judged on the classes where
+            it counts rows; a bare DECIMAL's defaults are left to `typed`; the written form {'type': 'ARRAY',
+            'element_type': None} keeps no element type).
 
   session   every read of a session is judged like `frame`, against the columns of the frame's schema AS THEY ARE AT
             THAT READ (observed just before the read): one entry per column, entry i bears column i's name, the type
@@ -285,6 +298,61 @@ def impl_frame(case):
     out["desc"] = [[e[0], e[1] if (e[1] is None or isinstance(e[1], str)) else {"__other__": repr(e[1])[:80]},
                     _int(e[4]), _int(e[5])] for e in d1]
     out["back"] = [impl_from_name(e[1]) if isinstance(e[1], str) else None for e in d1]
+    return out
+
+
+# --------------------------------------------------------------------------- the other declaration routes
+
+# every way a column comes to be declared with a type NAME: the keyword constructor, the dictionary form
+# (FlatColumn.from_dict, RelationSchema.from_dict, FlatColumn.from_json), the subclasses of FlatColumn (which inherit
+# the constructor and from_dict)
+ROUTES = ("FlatColumn(...)", "FlatColumn.from_dict", "RelationSchema.from_dict", "FlatColumn.from_json", "ConstantColumn(...)",
+          "ConstantColumn.from_dict", "FunctionColumn(...)", "DictionaryColumn(...)", "SparseColumn(...)", "RLEColumn(...)")
+# on these classes `length` is the number of rows the column stands for (class default 1), not the width of the type
+ROW_COUNT_LENGTH = ("ConstantColumn(...)", "ConstantColumn.from_dict", "FunctionColumn(...)")
+DICT_ROUTES = ("FlatColumn.from_dict", "RelationSchema.from_dict", "FlatColumn.from_json", "ConstantColumn.from_dict")
+# the written form (to_dict / to_json) of an ARRAY column that has no element type: the member's value next to a null
+# element type.  It reads back as a column without an element type; that is the one dictionary whose element type the
+# `routes` clause does not take from the name.
+WRITTEN_ARRAY = "ARRAY"
+# the written form of an untyped column: the value of the enumeration's "no type" member, which is not a type name; the
+# dictionary routes read it as that member (the keyword route resolves the text '0' to the untyped marker 0) - untyped
+# either way, outside the statement
+WRITTEN_UNTYPED = "0"
+
+
+def _route_builders(d):
+    import orjson
+
+    from orso.schema import (ConstantColumn, DictionaryColumn, FlatColumn, FunctionColumn, RelationSchema, RLEColumn,
+                             SparseColumn)
+
+    return {
+        "FlatColumn(...)": lambda: FlatColumn(**d),
+        "FlatColumn.from_dict": lambda: FlatColumn.from_dict(dict(d)),
+        "RelationSchema.from_dict": lambda: RelationSchema.from_dict({"name": "t", "columns": [dict(d)]}).columns[0],
+        "FlatColumn.from_json": lambda: FlatColumn.from_json(orjson.dumps(d)),
+        "ConstantColumn(...)": lambda: ConstantColumn(**d),
+        "ConstantColumn.from_dict": lambda: ConstantColumn.from_dict(dict(d)),
+        "FunctionColumn(...)": lambda: FunctionColumn(**d),
+        "DictionaryColumn(...)": lambda: DictionaryColumn(values=[], **d),
+        "SparseColumn(...)": lambda: SparseColumn(values=[], **d),
+        "RLEColumn(...)": lambda: RLEColumn(values=[], **d),
+    }
+
+
+def impl_routes(case):
+    """The same declaration {'name': 'c', 'type': <name>, **keys} through every route; what from_name gives for the name."""
+    d = {"name": "c", "type": case["name"]}
+    d.update(case.get("keys") or {})
+    out = {"ref": impl_from_name(case["name"]), "routes": {}}
+    with warnings.catch_warnings():
+        warnings.simplefilter("ignore")
+        for r, build in _route_builders(d).items():
+            try:
+                out["routes"][r] = _five(build())
+            except Exception as e:
+                out["routes"][r] = ["err", _cls(e)]
     return out
 
 
@@ -627,6 +695,52 @@ def explicit_clause(case, out):
     return None
 
 
+SLOT_WORDS = {"length": "length", "precision": "precision/scale", "scale": "precision/scale", "element_type": "element type"}
+
+
+def route_clause(case, route, ref, got):
+    """One route of the `routes` op.  `ref` = the implementation's own from_name(name)."""
+    keys = case.get("keys") or {}
+    e = case.get("expect")
+    if got[0] == "err":
+        if got[1] != "ValueError":
+            return "raised %s, not ValueError" % got[1]
+        if ref[0] == "ok" and all(v is None for v in keys.values()):
+            return "a name that resolves could not be declared"
+        return None
+    if e is not None and e["kind"].startswith("reject"):
+        return "a column was declared with a name the statement says is always rejected"
+    if ref[0] != "ok" or not isinstance(ref[1], str) or ref[1] == UNTYPED_MEMBER:
+        return None  # the name is rejected by from_name / untyped: only the exception class is demanded
+    if got[1] != ref[1]:
+        return "column does not carry the type the name resolves to"
+    written = route in DICT_ROUTES and case["name"] == WRITTEN_ARRAY and "element_type" in keys and keys["element_type"] is None
+    for k, i in SLOT.items():
+        if k == "length" and route in ROW_COUNT_LENGTH:
+            continue
+        v = keys.get(k)
+        if v is not None:
+            # given next to the name: carried when the name does not specify it itself (or says the same)
+            if (ref[i] is None or ref[i] == v) and got[i] != v:
+                return "column does not carry the explicitly given %s" % SLOT_WORDS[k]
+            continue
+        if k == "element_type" and written:
+            continue
+        if ref[i] is None and ref[1] == "DECIMAL" and k in ("precision", "scale"):
+            continue  # a bare DECIMAL: the constructor's defaults, `typed` judges them
+        if got[i] != ref[i]:
+            return "column does not carry the %s the name resolves to" % SLOT_WORDS[k]
+    return None
+
+
+def routes_clause(case, out):
+    for r in ROUTES:
+        c = route_clause(case, r, out["ref"], out["routes"][r])
+        if c:
+            return "declared through %s: %s" % (r, c)
+    return None
+
+
 def entries_clause(names, cols, desc, back, why, stable=True):
     """One description against the columns it describes (their names and observed attributes, in order)."""
     if any(c[0] != "ok" for c in cols):
@@ -711,6 +825,8 @@ def oracle(case, out):
         return frame_clause(case, out)
     if op == "session":
         return session_clause(case, out)
+    if op == "routes":
+        return routes_clause(case, out)
     name = case["name"]
     e = case.get("expect")
     if op == "column" and case.get("explicit"):
@@ -842,6 +958,15 @@ def valid_case(c):
         return all(_valid_colspec(spec) for spec in cols)
     if isinstance(c, dict) and c.get("op") == "session":
         return _valid_session(c)
+    if isinstance(c, dict) and c.get("op") == "routes":
+        keys = c.get("keys", {})
+        if not isinstance(c.get("name"), str) or not isinstance(keys, dict) or set(keys) - set(SLOT) or not _valid_explicit(keys):
+            return False
+        try:
+            c["name"].encode("utf-8")
+        except UnicodeEncodeError:
+            return False
+        return c.get("expect") is None or label_valid(c["name"], c["expect"])
     if not isinstance(c, dict) or c.get("op") not in ("from_name", "column") or not isinstance(c.get("name"), str):
         return False
     if "explicit" in c:
@@ -901,6 +1026,8 @@ def run_impl(c):
         return impl_frame(c)
     if c["op"] == "session":
         return impl_session(c)
+    if c["op"] == "routes":
+        return impl_routes(c)
     return impl_from_name(c["name"]) if c["op"] == "from_name" else impl_column(c["name"], c.get("explicit"))
 
 
@@ -1086,6 +1213,9 @@ def evaluate(ctx, cases):
     sessions = [c for c in cases if c["op"] == "session"]
     if sessions:
         evaluate_sessions(ctx, sessions)
+    routes = [c for c in cases if c["op"] == "routes"]
+    if routes:
+        evaluate_routes(ctx, routes)
     cases = [c for c in cases if c["op"] in ("from_name", "column")]
     idx, lines = [], []
     for i, c in enumerate(cases):
@@ -1142,6 +1272,63 @@ def evaluate(ctx, cases):
             cmp_out = out[:3] if c["op"] == "column" else out
             if not wire.same(_plain(cmp_out), _plain(m)):
                 ctx.disagree(c, out, m)
+
+
+def evaluate_routes(ctx, cases):
+    """Every declaration route for one name (and dictionary keys): the oracle reads the name's parameters off the
+    implementation's own from_name; the model (TypeName.declare) declares the column itself when no key is given a value."""
+    outs = [run_impl(c) for c in cases]
+    idx, lines = [], []
+    for i, c in enumerate(cases):
+        keys = c.get("keys") or {}
+        mn = model_name(c["name"])
+        written = c["name"] == WRITTEN_ARRAY and "element_type" in keys
+        if mn is not None and all(v is None for v in keys.values()) and not written:
+            idx.append(i)
+            lines.append("C06 column " + wire.line(mn))
+    mouts = dict(zip(idx, ctx.model.batch(lines)))
+    for i, (c, out) in enumerate(zip(cases, outs)):
+        keys = c.get("keys") or {}
+        ctx.case(c, nontrivial=len(c["name"]) > 0)
+        ctx.hit("op:routes")
+        ctx.hit("routes-keys:" + ("none" if not keys else "all-null" if all(v is None for v in keys.values()) else "values"))
+        ref = out["ref"]
+        ctx.hit("routes-name:" + ("rejected" if ref[0] != "ok" else "untyped" if not isinstance(ref[1], str) or ref[1] == UNTYPED_MEMBER
+                                  else "typed"))
+        if c["name"] == WRITTEN_ARRAY and "element_type" not in keys:
+            ctx.hit("routes:bare-ARRAY-declared-without-element_type-key")
+        clause = oracle(c, out)
+        m = None
+        if i in mouts:
+            ctx.hit("compared-with-model")
+            if not mouts[i].startswith("ok "):
+                raise InfraError("model rejected case %r: %r" % (c, mouts[i]))
+            m = wire.dec_all(mouts[i][3:])[0]
+        if clause is not None:
+            c_min = c
+            if not ctx.replaying:
+                def still(c2):
+                    return valid_case(c2) and c2.get("op") == "routes" and oracle(c2, run_impl(c2)) == clause
+                for k in list(keys):
+                    c2 = dict(c_min, keys={k2: v for k2, v in c_min["keys"].items() if k2 != k})
+                    if not c2["keys"]:
+                        del c2["keys"]
+                    if still(c2):
+                        c_min = c2
+                if "expect" not in c_min:
+                    c_min = shrink(c_min, still, budget=200)
+            ctx.fail(c_min, clause, impl=run_impl(c_min), model=m if c_min is c else None)
+        elif m is not None:
+            for r in ROUTES:
+                got = out["routes"][r]
+                want = m
+                if r in DICT_ROUTES and c["name"] == WRITTEN_UNTYPED and m[0] == "ok":
+                    want = [m[0], UNTYPED_MEMBER] + m[2:]
+                if r in ROW_COUNT_LENGTH and got[0] == "ok" and m[0] == "ok":
+                    want = want[:2] + [got[2]] + want[3:]
+                if not wire.same(_plain(got), _plain(want)):
+                    ctx.disagree(c, out, m)
+                    break
 
 
 def _plain(x):
@@ -1279,6 +1466,152 @@ def exhaustive_cases(ctx):
     yield from frame_cases(thorough)
     # 10. sessions: frames over shared schemas, columns redeclared between reads of description
     yield from session_cases(thorough)
+    # 11. strings special to a formatting / templating / regex layer on the error path, wrong-bracket forms of valid names,
+    #     very long names, NUL - through both routes of the totality clause
+    for n in format_special_names(thorough):
+        yield from labelled(n)
+    # 12. every type-name form through every declaration route (keyword constructor, from_dict, RelationSchema.from_dict,
+    #     from_json, the subclasses), without and with parameter keys in the dictionary
+    yield from routes_cases(thorough)
+
+
+# --- strings that are special to a layer a REJECTED name may be passed through on the error path (str.format, the %
+# operator, string.Template, re), very long names, NUL; wrong-bracket forms of every valid name
+BRACKETS = [("<", ">"), ("(", ")"), ("[", "]"), ("{", "}")]
+FORMAT_SPECIALS = ["{x}", "{}", "{0}", "{1}", "{0!r}", "{:>10}", "{names}", "{name}", "{type}", "{{}}", "{{x}}", "{", "}", "}{", "{}{}",
+                   "{0.real}", "{x[0]}", "{x.__class__}", "%s", "%d", "%r", "%(x)s", "%(name)s", "%", "%%", "%%s", "%5.2f", "%c", "%*d",
+                   "%s%s", "100%", "\\", "\\d", "\\1", "\\g<0>", "\\N{DIGIT ONE}", "\\u0041", "\\x41", "$name", "${name}", "$", "$$",
+                   ".*", "(?P<x>", "(?i)integer", "INTEGER|DATE", "^INTEGER$", "a{2}", "a{2,3}", "[a-z]", "(", ")", "[", "]", "*", "+",
+                   "?", "\x00", "INTEGER\x00", "\x00INTEGER", "INT\x00EGER", "'", "''", '"', "{'x'}", "#{x}", "<%= x %>", "{% x %}"]
+
+
+def wrong_brackets(canon):
+    """`canon` with its bracket pair swapped for every other pair, half-swapped, doubled, and its inside wrapped."""
+    for o, c in BRACKETS:
+        if o in canon and c in canon:
+            i, j = canon.index(o), canon.rindex(c)
+            head, inner, tail = canon[:i], canon[i + 1:j], canon[j + 1:]
+            for o2, c2 in BRACKETS:
+                if (o2, c2) != (o, c):
+                    yield head + o2 + inner + c2 + tail
+                    yield head + o + inner + c2 + tail
+                    yield head + o2 + inner + c + tail
+                yield head + o + o2 + inner + c2 + c + tail
+            break
+
+
+def format_special_names(thorough):
+    seen = set()
+
+    def once(n):
+        if n not in seen:
+            seen.add(n)
+            return True
+        return False
+    valid = ["ARRAY<%s>" % t for t in SCALAR] + ["DECIMAL(10,2)", "DECIMAL(38,38)", "DECIMAL(0,0)", "VARCHAR[10]", "VARCHAR[0]", "BLOB[7]"]
+    for n in FORMAT_SPECIALS:
+        for m in (n, "ARRAY<%s>" % n, "INTEGER" + n, n + "INTEGER", "DECIMAL(10,2)" + n, "VARCHAR[%s]" % n, "DECIMAL(%s,2)" % n):
+            if once(m):
+                yield m
+    for canon in valid:
+        for m in wrong_brackets(canon):
+            for v in (m, m.lower()):
+                if once(v):
+                    yield v
+    for b in BASE + ALIASES:
+        for o, c in BRACKETS:
+            for m in (o + b + c, b + o + c, b + o + "0" + c, b + o + "10,2" + c, o + c + b, b + o, b + c, "ARRAY<" + o + b + c + ">"):
+                if once(m):
+                    yield m
+        for m in ("%" + b, b + "%s", b + "%", "%(" + b + ")s", "$" + b, "\\" + b):
+            if once(m):
+                yield m
+    big = 20000 if thorough else 5000
+    for m in ("A" * big, "{" * big, "}" * big, "{}" * (big // 2), "%s" * (big // 2), "%" * big, "INTEGER" * (big // 7), "\x00" * big,
+              "ARRAY<" + "A" * big + ">", "ARRAY<" * (big // 6), "((((" * (big // 4), "{0}" * (big // 3), "\\" * big,
+              "INTEGER" + " " * big, "DECIMAL(10,2)" + "{" * big):
+        if once(m):
+            yield m
+
+
+ROUTE_KEYS = [{}, {"element_type": None}, {"length": None, "precision": None, "scale": None, "element_type": None},
+              {"length": None}, {"precision": None, "scale": None}, {"element_type": "INTEGER"}, {"element_type": "VARCHAR"},
+              {"precision": 5, "scale": 0}, {"length": 0}, {"length": 7, "element_type": None}]
+
+
+def routes_names(thorough):
+    """Every type-name form: bare (every letter case of ARRAY and of the short names, classes of the others), aliases,
+    parameterised at the boundaries, ARRAY<T> over every name and alias; a few names that are rejected."""
+    for b in BASE:
+        for n in (all_cases_of(b) if (b == "ARRAY" or len(b) <= 4 or thorough) else case_classes(b)):
+            yield n, {"kind": "base", "base": b}
+    for a in ALIASES:
+        for n in case_classes(a):
+            yield n, None
+    for p, q in [(0, 0), (1, 0), (1, 1), (10, 2), (28, 21), (38, 0), (38, 37), (38, 38), (39, 0), (5, 6), (38, 39), (100, 2)]:
+        canon = "DECIMAL(%d,%d)" % (p, q)
+        for n in case_classes(canon) + ["DECIMAL(%d, %d)" % (p, q)]:
+            yield n, ({"kind": "decimal", "p": p, "s": q} if (0 <= q <= p <= MAX_P and ascii_upper(n) == canon) else None)
+    for w in (0, 1, 10, 255, 65535, 2**31, 2**63, 10**20):
+        for k in ("varchar", "blob"):
+            for n in case_classes("%s[%d]" % (k.upper(), w)):
+                yield n, {"kind": k, "n": w}
+    for t in BASE + ALIASES + ["VARCHAR[10]", "DECIMAL(10,2)", "ARRAY<DATE>", "FOO", ""]:
+        canon = "ARRAY<%s>" % t
+        for n in case_classes(canon):
+            yield n, ({"kind": "array", "elem": t} if (t in SCALAR and ascii_upper(n) == canon) else None)
+    for n in ["", " ", "FOO", "INT", " INTEGER", "INTEGER ", "ARRAY ", " ARRAY", "ARRAY<>", "ARRAY<", "LIST<INTEGER>", "VARCHAR[]",
+              "DECIMAL()", "DECIMAL(10)", "None", "null", "ınteger", "ARRAY<ınteger>", "DECIMAL(١٠,٢)", "ARRAY\x00", "{x}", "{}", "%s",
+              "ARRAY{}", "ARRAY<{INTEGER}>", "VARCHAR{10}", "DECIMAL{10,2}"]:
+        yield n, None
+
+
+def routes_cases(thorough):
+    for n, exp in routes_names(thorough):
+        if exp is None:
+            exp = auto_reject_label(n)
+        for keys in ROUTE_KEYS:
+            c = {"op": "routes", "name": n}
+            if keys:
+                c["keys"] = dict(keys)
+            if exp is not None:
+                c["expect"] = exp
+            yield c
+    for n in format_special_names(thorough):
+        if len(n) <= 64:
+            yield {"op": "routes", "name": n}
+
+
+def random_routes(ctx):
+    rng = ctx.rng
+    r = rng.random()
+    if r < 0.5:
+        name = rng.choice(seeds())
+        if rng.random() < 0.5:
+            name = "".join(ch.swapcase() if rng.random() < 0.4 else ch for ch in name)
+    elif r < 0.6:
+        name = rng.choice(FORMAT_SPECIALS)
+    else:
+        name = random_name(ctx)
+    try:
+        name.encode("utf-8")
+    except UnicodeEncodeError:
+        name = "ARRAY"
+    keys = {}
+    if rng.random() < 0.6:
+        for k in SLOT:
+            x = rng.random()
+            if x < 0.25:
+                keys[k] = None
+            elif x < 0.35:
+                keys[k] = rng.choice(SCALAR) if k == "element_type" else rng.choice([0, 1, 5, 38])
+    c = {"op": "routes", "name": name}
+    if keys:
+        c["keys"] = keys
+    exp = auto_reject_label(name)
+    if exp is not None:
+        c["expect"] = exp
+    return c
 
 
 ARROW_SPECS = ["int8", "int32", "int64", "uint16", "float32", "float64", "bool", "string", "large_string", "binary", "date32",
@@ -1584,13 +1917,13 @@ def seeds():
 
 
 ASCII_POOL = "ARRAYDECIMALVARCHARBLOBINTEGERSTRUCTNULLJSONTIMESTAMPLISTNUMERICSTRINGVARIANTMISSING" \
-             "arraydecimalvarcharblobinteger0123456789<>()[],,,   \t\n\r\x0b\x0c\x1c\x1f_-.;:'\"\\\x00\x7f*+?|^$"
+             "arraydecimalvarcharblobinteger0123456789<>()[],,,   \t\n\r\x0b\x0c\x1c\x1f_-.;:'\"\\\x00\x7f*+?|^${}{}%%{}"
 UNICODE_POOL = ["ı", "ſ", "ß", "ﬁ", "K", "İ", "é", "日", "\U0001f600", "١", "٠", "２", "१", "\u0085", " ", " ", "　",
                 "​", "ǆ", "ŉ", "µ", "ª", "²", "①", "Ⅷ", "٠", "１", "＿", "＿", "＜", "＞", "（", "［"]
 
 
 def mutate(rng, s):
-    k = rng.randrange(11)
+    k = rng.randrange(13)
     pos = rng.randrange(len(s) + 1)
     if k == 0 and s:
         return s[:pos] + s[pos + 1:]
@@ -1614,6 +1947,15 @@ def mutate(rng, s):
         return s[:pos] + str(rng.choice([0, 1, 9, 38, 39, 100, 10**20])) + s[pos:]
     if k == 9:
         return rng.choice(seeds()) + s if rng.random() < 0.5 else s + rng.choice(seeds())
+    if k == 11:
+        # a bracket pair swapped for another one (wrong-bracket forms: VARCHAR{10}, DECIMAL[10,2], ARRAY<{INTEGER}>)
+        o2, c2 = rng.choice(BRACKETS)
+        t = s
+        for o, c in BRACKETS:
+            t = t.replace(o, o2).replace(c, c2) if rng.random() < 0.7 else t
+        return t
+    if k == 12:
+        return s[:pos] + rng.choice(FORMAT_SPECIALS) + s[pos:]
     return s[pos:]
 
 
@@ -1661,6 +2003,9 @@ def random_cases(ctx, n):
             continue
         if i % 25 == 13:
             out.append(random_session(ctx.rng))
+            continue
+        if i % 25 == 5:
+            out.append(random_routes(ctx))
             continue
         if i % 50 == 3:
             x = {k: v for k, v in (("precision", ctx.rng.choice([None, 0, 5, 38])), ("scale", ctx.rng.choice([None, 0, 5])),
